@@ -733,6 +733,69 @@ class Tab:
         if not nbad:
             self.ok("T14", n, "%d (origin digit, index digit) pairs: PENTAGON_ROTATIONS_REVERSE undoes PENTAGON_ROTATIONS (or lands on the deleted K direction, which fails)" % n)
 
+    # ------------------------------------------------------------- T20
+    def T20(self):
+        """PENTAGON_ROTATIONS_REVERSE_NONPOLAR / _POLAR undo the unfolding cellToLocalIjk applies to an index on a pentagon base cell seen from a
+        neighbouring hexagon base cell: forward = pentagon-cw rotations by the base-cell rotation count (the reverse direction rotates along,
+        skipping K), then PENTAGON_ROTATIONS[revDir'][leading'] plain cw rotations; backward = plain ccw by the base-cell rotation count, then
+        TABLE[revDir][leading] pentagon-ccw rotations.  Asserted on the image of the forward map (pairs that FAILED_DIRECTIONS refuses are skipped)."""
+        bn = self.T.get("baseCellNeighbors")
+        br = self.T.get("baseCellNeighbor60CCWRots")
+        PR = self.T.get("PENTAGON_ROTATIONS")
+        NP = self.T.get("PENTAGON_ROTATIONS_REVERSE_NONPOLAR")
+        PO = self.T.get("PENTAGON_ROTATIONS_REVERSE_POLAR")
+        FD = self.T.get("FAILED_DIRECTIONS")
+        ccw, cw, _a, _b = self.rot_maps()
+        polar = set(self.polar_pentagons())
+        n = nbad = 0
+        for p in self.pentagons():
+            name = "PENTAGON_ROTATIONS_REVERSE_POLAR" if p in polar else "PENTAGON_ROTATIONS_REVERSE_NONPOLAR"
+            tab = PO if p in polar else NP
+            for rev in range(2, 7):
+                o = bn[p][rev]
+                if not (0 <= o < len(bn)):
+                    continue
+                dirs = [d for d in range(1, 7) if bn[o][d] == p]
+                if len(dirs) != 1:
+                    continue        # adjacency asymmetry is T3's finding
+                rots = br[o][dirs[0]]
+                for d0 in range(2, 7):
+                    d, rd = d0, rev
+                    for _ in range(rots):
+                        d = cw(d)
+                        if d == K:
+                            d = cw(d)
+                        rd = cw(rd)
+                        if rd == K:
+                            rd = cw(rd)
+                    if FD[d][rd]:
+                        continue
+                    pr = PR[rd][d]
+                    if pr < 0:
+                        continue
+                    lead = d
+                    for _ in range(pr):
+                        lead = cw(lead)
+                    for _ in range(rots):
+                        lead = ccw(lead)
+                    R = tab[rev][lead]
+                    n += 1
+                    e = lead
+                    for _ in range(max(R, 0)):
+                        e = ccw(e)
+                        if e == K:
+                            e = ccw(e)
+                    if R < 0 or e != d0:
+                        nbad += 1
+                        self.bad("T20", "%s[%d][%d]" % (name, rev, lead),
+                                 "%s[%d][%d] = %d: an index with leading digit %d on pentagon base cell %d, unfolded from its neighbour in direction %d (base cell %d, %d base-cell rotations, "
+                                 "PENTAGON_ROTATIONS[%d][%d] = %d), arrives with leading digit %d and is rotated back to leading digit %s instead of %d (localIjToCell(cellToLocalIj(h)) != h)"
+                                 % (name, rev, lead, R, d0, p, rev, o, rots, rd, d, pr, lead, e if R >= 0 else "-", d0), self.T.where(name))
+        if n < 150:
+            raise AnalysisBroken("T20: only %d (pentagon, direction, leading digit) instances" % n)
+        if not nbad:
+            self.ok("T20", n, "%d (pentagon, neighbour direction, leading digit) instances: the _NONPOLAR/_POLAR reverse tables undo the forward unfolding of an index on a pentagon base cell" % n)
+
     # ------------------------------------------------------------- T15 per-resolution constant tables
     def T15(self):
         """average area / edge tables are consistent between their units"""
@@ -894,7 +957,7 @@ def macro_values(cfg, repo=None):
     return floats, ints
 
 
-ALL = ["T1", "T2", "T3", "T4", "T5", "T6", "T7", "T8", "T9", "T10", "T11", "T12", "T13", "T14", "T15", "T16", "T17", "T18", "T19"]
+ALL = ["T1", "T2", "T3", "T4", "T5", "T6", "T7", "T8", "T9", "T10", "T11", "T12", "T13", "T14", "T15", "T16", "T17", "T18", "T19", "T20"]
 
 
 def run(ctx, m, cfg, rels, only_keys=None):
